@@ -19,7 +19,7 @@ TASK: craft ONE small, realistic source change (a plausible bug a maintainer cou
  1. the library still compiles (go build ./... and go vet-free `go test -vet=off -run '^$' ./...`),
  2. the EXISTING test suite still passes with the change: at minimum run `go test -vet=off -count=1 ./...` from /tmp/seed/{pid} for the root module (it takes a few minutes; you may first run only the packages near your change, but finish with the whole root module) — if any existing test fails, pick a different change,
  3. the change BREAKS the property above, but only for something specific: an unusual input, a boundary value, a multi-step sequence, a particular length or bit pattern — NOT something that ordinary use would expose at once,
- 4. you provide a demonstration: a new Go test file (name it zz_seed_demo_test.go, placed in the appropriate package dir of the worktree) with a test `TestSeedDemo` that FAILS with your change applied and PASSES on the unmodified code. Verify both directions yourself (use `git stash` / `git diff` as needed).
+ 4. you provide a demonstration: a new Go test file (name it zz_seed_demo_test.go, placed in the appropriate package dir of the worktree) with a test `TestSeedDemo` that FAILS with your change applied and PASSES on the unmodified code. Verify both directions yourself (use `git diff > /tmp/seedout/'{pid}'/my.diff; git apply -R ...` — do NOT use `git stash`: the stash is shared between worktrees and other agents are working concurrently).
 
 Do not modify existing tests. Do not modify generated *.pb.go files (exception: the hand-maintained helper methods inside types/known/*/*.pb.go such as New, AsDuration, AsTime, check, CheckValid may be changed). Keep the change minimal (typically 1-5 lines). Prefer a change inside the code the property's anchors name.
 
